@@ -254,4 +254,129 @@ class ShippedWeighted(Facet):
         rec.sample({"grammar": case["grammar"], "weights": prev}, limit=1)
 
 
-FACETS = [Normalisation(), Choosers(), ShippedWeighted()]
+class UpdatedAfterConstruction(Facet):
+    """A decider / representation object is built first; then Grammar.update_weights drives one
+    production of a rule to exactly 0; the SAME objects go on choosing. They must honour the
+    grammar's current weights (nothing remembered from construction time)."""
+
+    name = "weights_updated_after_construction"
+    flags = Flags(weights=True, zero_weights=False, dependent=False, user_mh=False, refined=False, lists=False, max_abstract=3, max_concrete=7, min_extra_concrete=2, unreachable=False)
+
+    def budget(self, tier):
+        return (60, 4) if tier == "quick" else (400, 16)
+
+    def strategy(self, tier):
+        return st.builds(lambda s, seed, d, k: {"spec": s, "seed": seed, "depth": d, "k": k}, specs(self.flags), st.integers(0, 2**31), st.integers(0, 6), st.integers(0, 40))
+
+    def run(self, case, rec):
+        from itertools import accumulate
+
+        from geneticengine.random.sources import NativeRandomSource
+        from geneticengine.representations.tree.initializations import ProgressivelyTerminalDecider
+        from geneticengine.representations.tree.treebased import TreeBasedRepresentation
+        from geneticengine.solutions.tree import LocalSynthesisContext
+        from vk.props.c18 import FixedSource
+        spec = case["spec"]
+        mat = materialise(spec)
+        try:
+            info = SpecInfo(spec, mat.classes)
+            try:
+                g = mat.grammar()
+            except Exception:  # noqa: BLE001
+                rec.discard()
+                return
+            if g.get_min_tree_depth() >= 1000000:
+                rec.discard()
+                return
+            rules = [(a, list(g.alternatives[mat.classes[a]])) for a in info.abstract_names if a in info.registered() and mat.classes[a] in g.alternatives]
+            rules = [(a, alts) for a, alts in rules if len(alts) >= 2]
+            if not rules:
+                rec.discard()
+                return
+            a, alts = rules[case["k"] % len(rules)]
+            # the victim must not be needed to terminate: keep a non-recursive alternative alive
+            cands = [x for x in alts if any(y is not x and y not in g.recursive_prods for y in alts)]
+            if not cands:
+                rec.discard()
+                return
+            victim = cands[(case["k"] // 7) % len(cands)]
+            probe = FixedSource.make(0)
+            dec = ProgressivelyTerminalDecider(probe, g)  # built BEFORE the update
+            calls = []
+
+            class Spy(NativeRandomSource):
+                def choice_weighted(self, choices, weights):
+                    v = super().choice_weighted(choices, weights)
+                    calls.append((v, list(choices), list(weights)))
+                    return v
+
+            rnd = Spy(case["seed"])
+            rep = TreeBasedRepresentation(g, ProgressivelyTerminalDecider(rnd, g))
+            try:
+                rep.create_genotype(rnd)  # first use
+            except Exception:  # noqa: BLE001
+                pass
+            w0 = g.get_weights()
+            extra = {x: 0.0 for x in w0}
+            extra[victim] = -w0[victim]
+            try:
+                g.update_weights(1.0, extra)
+            except Exception:  # noqa: BLE001 - update_weights' own assertions: not this property
+                rec.discard()
+                return
+            weights = g.get_weights()
+            if weights.get(victim) != 0 or not any(weights[x] > 0 for x in alts if x is not victim):
+                rec.discard()
+                return
+            rec.nontrivial((spec, a, mat.names[victim]))
+            rec.sample({"spec": spec_str(spec), "rule": a, "zeroed": mat.names[victim]}, limit=3)
+            ctx = LocalSynthesisContext(case["depth"], 0, 0, {})
+            target = g.get_max_node_depth()
+
+            def eff(n):
+                base = target // (ctx.depth + 1) if n in g.recursive_prods else target - g.get_distance_to_terminal(n)
+                return base * weights[n]
+
+            effs = [eff(x) for x in alts]
+            if any(e > 0 for e in effs):
+                try:
+                    dec.choose_production_alternatives(mat.classes[a], list(alts), ctx)
+                    lo, hi = probe.asked
+                except Exception:  # noqa: BLE001
+                    lo = hi = None
+                if lo is not None:
+                    accs = [int(x * 100000) for x in accumulate(effs)]
+                    pts = {lo, hi, hi - 1, lo + 1}
+                    for acc in accs:
+                        pts |= {acc - 1, acc, acc + 1}
+                    for d in sorted(p for p in pts if lo <= p <= hi):
+                        probe.v = d
+                        r = dec.choose_production_alternatives(mat.classes[a], list(alts), ctx)
+                        if r is victim:
+                            rec.fail(
+                                "C19/chooser/decider-built-before-update_weights-returns-zero-weight-production",
+                                f"rule {a}: a ProgressivelyTerminalDecider built before Grammar.update_weights zeroed {mat.names[victim]} still returns it on draw {d} of [{lo},{hi}] (current weights {dict((mat.names[x], weights[x]) for x in alts)}); {spec_str(spec)}",
+                            )
+                            return
+            # the representation object built before the update goes on creating programs; its
+            # weighted choices are observed: the zeroed production must not be returned by a choice
+            # in which another production had a positive weight (all-zero effective weights excluded)
+            vname = mat.names[victim]
+            del calls[:]
+            for _ in range(6):
+                try:
+                    rep.create_genotype(rnd)
+                except Exception:  # noqa: BLE001
+                    break
+            for v, choices, ws in calls:
+                if v is victim and any(w > 0 and weights.get(x, 1.0) > 0 for x, w in zip(choices, ws) if x is not victim):
+                    rec.fail(
+                        "C19/chooser/representation-built-before-update_weights-chooses-zero-weight-production",
+                        f"a tree representation (progressive decider) built before Grammar.update_weights zeroed {vname} of rule {a} chose it among {[mat.names.get(x, x) for x in choices]} with weights {ws}; {spec_str(spec)}",
+                    )
+                    return
+        finally:
+            mat.cleanup()
+
+
+FACETS = [Normalisation(), Choosers(), ShippedWeighted(), UpdatedAfterConstruction()]
